@@ -12,7 +12,9 @@
 (*              item the list of positions of the datum                    *)
 (*  kind "tx":  id, pre (items inserted beforehand), flag, txid (item),     *)
 (*              outs [class, pushes (items), op (item)], ins [op, pushes],  *)
-(*              after (items queried afterwards)                           *)
+(*              after (items queried afterwards), follow (the follow-up     *)
+(*              transactions spending each output, each tried on the        *)
+(*              filter as the transaction left it)                         *)
 (*  kind "bulk": id, adds (items), qs (items queried after all the adds)    *)
 (*                                                                         *)
 (* Laws evaluated on the real positions: a datum inserted earlier answers   *)
@@ -62,6 +64,7 @@ EvalTx(c) ==
         r   == MatchTxAndUpdate(pre, c.flag, TxOf(c))
     IN  [ id |-> c.id, matched |-> r.matched, bytes |-> SparseBytes(r.bits),
           after |-> [k \in 1..Len(c.after) |-> Matches(r.bits, Item(c.after[k]))],
+          follow |-> [k \in 1..Len(c.follow) |-> MatchTxAndUpdate(r.bits, c.flag, TxOf(c.follow[k])).matched],
           law |-> pre \subseteq r.bits ]
 
 \* many insertions at once, then many queries (the thousands-of-elements cases)
